@@ -615,7 +615,12 @@ def run_op(M: Machine, step: int, op: dict) -> str | None:
                 if k == "em_append" and n_new != 0:
                     M.viol("C20.O6", f"step {step}: rejected append changed the emulsion", op=k,
                            kind="rejected_but_changed")
-                if len(lay_members) == 1 and all(
+                # only in unambiguous states: one layout among the members AND the emulsion's
+                # declared dtype is that layout (the dtype is set at the first insertion and is
+                # kept by clear(); an emulsion refilled with another layout is inconsistent and
+                # the statement does not say what a consistency request must do there)
+                if len(lay_members) == 1 and m.dtype is not None and \
+                        _lay(np.dtype(m.dtype)) in lay_members and all(
                         _lay(o) in lay_members for o in objs):
                     M.viol("C20.O6", f"step {step}: append with force_consistency rejected a "
                            f"droplet of the emulsion's own layout", op=k, kind="wrongly_rejected")
